@@ -12,7 +12,7 @@
      index (exact value for every D; = the abstract index for D = no filter), parent,
      fetch_following_sibling, iterate_following_siblings, fetch_preceding_sibling, iterate_preceding_siblings,
      iterate_descendants (explicit-stack loop = strict pre-order), traverse_df_ltr_ttb,
-     iterate_ancestors (= parent chain, restricted to F), depth (= its length),
+     iterate_ancestors (= parent chain, restricted to F), depth (= its length, also for parentless nodes),
      iterate_preceding (= all nodes before, nearest first, restricted to F; independent of D),
      iterate_following (= all nodes after restricted to D and F) under the decidable guard `up_closed_b D t`
        (a node the ambient filter hides has only hidden descendants: holds for no filter, the library default
@@ -98,18 +98,12 @@ Theorem C05_ancestors : forall c inh, el_ok c = true -> NoDup (cel_ids c) ->
 Proof. exact c_ancestors_abs. Qed.
 Print Assumptions C05_ancestors.
 Theorem C05_depth : forall c inh, el_ok c = true -> NoDup (cel_ids c) ->
-  forall D n, In n (ids (abs_el inh c)) -> is_ktag (ckind_of c) = true ->
-  c_depth c D n = Ok (a_depth (abs_el inh c) n).
+  forall D n, In n (ids (abs_el inh c)) -> c_depth c D n = Ok (a_depth (abs_el inh c) n).
 Proof. exact c_depth_abs. Qed.
 Print Assumptions C05_depth.
-(* full statement of C05_depth (no hypothesis on the root): forall D n, c_depth c D n = Ok (a_depth (abs_el inh c) n).
-   False for the code as it is: the depth of a parentless comment / PI node raises AttributeError (finding
-   C05-depth-parentless-childless); C05_depth above is the theorem under the decidable guard "the root is a tag node". *)
-Theorem C05_depth_refuted : exists c n,
-  el_ok c = true /\ nodupb (cel_ids c) = true /\ In n (ids (abs_el [] c)) /\ a_depth (abs_el [] c) n = 0%nat /\
-  c_depth c ftrue n = Crash AttributeError.
-Proof. exact depth_parentless_refuted. Qed.
-Print Assumptions C05_depth_refuted.
+(* regression for finding C05-depth-parentless-childless (repaired in 50b8568): a parentless comment has depth 0 *)
+Example C05_depth_parentless_comment : c_depth (CEl 0%N (KComment []) None no_chain []) ftrue 0%N = Ok 0%nat.
+Proof. exact depth_parentless_comment. Qed.
 Theorem C05_ancestors_are_parent_chain : forall t, NoDup (ids t) -> forall n, In n (ids t) ->
   a_ancestors t n = match a_parent t n with Some p => p :: a_ancestors t p | None => [] end.
 Proof. exact ancestors_chain. Qed.
